@@ -55,11 +55,16 @@ func vc19_global() {
 func vc19_go() {
 	allow := vsym_bool()
 	prog := vsym_bool()
+	// the call of the go statement: a function, a function literal, builtins
+	calls := []string{"f()", "func() {}()", "print(1)", "println()", "close(ch)", "panic(1)", "recover()", "delete(m, 1)", "copy(sl, sl)"}
+	call := calls[vsym_choice(len(calls))]
 	var err error
 	if prog {
-		_, err = Build(Files{"main.go": []byte("package main\nfunc f() {}\nfunc main() { go f() }\n")}, &BuildOptions{AllowGoStmt: allow})
+		src := "package main\nfunc f() {}\nfunc main() {\n\tch := make(chan int)\n\tm := map[int]int{}\n\tsl := []int{1}\n\t_, _, _ = ch, m, sl\n\tgo " + call + "\n}\n"
+		_, err = Build(Files{"main.go": []byte(src)}, &BuildOptions{AllowGoStmt: allow})
 	} else {
-		_, err = BuildTemplate(Files{"index.txt": []byte("{% f := func() {} %}{% go f() %}")}, "index.txt", &BuildOptions{AllowGoStmt: allow})
+		src := "{% f := func() {} %}{% ch := make(chan int) %}{% m := map[int]int{} %}{% sl := []int{1} %}{% _, _, _, _ = f, ch, m, sl %}{% go " + call + " %}"
+		_, err = BuildTemplate(Files{"index.txt": []byte(src)}, "index.txt", &BuildOptions{AllowGoStmt: allow})
 	}
 	if allow {
 		vassert(err == nil, "go-statement-builds-when-allowed")
